@@ -469,9 +469,9 @@ meta("C17", level="exploration",
           "differential against the explicit chain get_global_default().unwrap().<kind>_with_tags(k, v).with_tag(..)...send() run back to back on the same client (same line, one emit each, "
           "same handler traffic), the reference formatter of C01 with the client's defaults, every argument evaluated exactly once, failures only in the handler log (same error), panic iff "
           "no client set - including macros tried BEFORE the set on the main thread and on another thread (they must panic, and the same threads must work after the set), and macros on threads "
-          "spawned after the set -, a second set_global_default is ignored. distinct = (macro, value type, tag arity, sink behaviour, handler, set/unset)",
+          "spawned after the set -, a second set_global_default is ignored. Second observer: macro_miri (global client set once, a second set ignored, all 7 macros from 1-4 threads, lines equal to the explicit chains) under Miri with 16 (quick) / 4x64 (thorough) seeds: spurious compare-exchange failures, weak memory, data races and UB on the set-once path. distinct = (macro, value type, tag arity, sink behaviour, handler, set/unset)",
      assumptions=["tag arities above 6 are not driven (the macro repetition is uniform)", "the global can be set once per process, hence one process per configuration"],
-     min_evaluations=2000, must_observe={"macro_vs_chain_pairs_equal": 1500, "argument_evaluations_checked": 5000, "unset_macros_panicked": 100, "handler_deliveries_checked": 100, "second_set_ignored_checks": 4, "threads_that_tried_a_macro_before_set": 4, "macros_on_fresh_threads": 4, "argument_order_checks": 1000, "macro_inside_handler_checks": 4})
+     min_evaluations=2000, must_observe={"macro_vs_chain_pairs_equal": 1500, "argument_evaluations_checked": 5000, "unset_macros_panicked": 100, "handler_deliveries_checked": 100, "second_set_ignored_checks": 4, "miri_seeds_completed": 8, "threads_that_tried_a_macro_before_set": 4, "macros_on_fresh_threads": 4, "argument_order_checks": 1000, "macro_inside_handler_checks": 4})
 
 
 @plan("C17")
@@ -491,6 +491,12 @@ def _c17(bindir, tier, seed):
         if i % 4 != 3 and i % 6 != 5:
             argv += ["--reentrant-handler"]
         jobs.append(Job("C17-macro-%d" % i, argv, 600))
+    # second observer: the macros on a set global client under Miri (spurious CAS failures, weak memory, races, UB)
+    if tier == QUICK:
+        jobs.append(miri_job("C17-miri-macros", "C17", "macro_miri", ["2", "2"], 16, seed, 1500))
+    else:
+        for k in range(4):
+            jobs.append(miri_job("C17-miri-macros-%d" % k, "C17", "macro_miri", [["2", "3"], ["3", "2"], ["4", "1"], ["1", "4"]][k], 64, seed + 13 * k, 7200))
     return jobs
 
 
